@@ -40,7 +40,7 @@ func Run(r *core.Report, env *build.Env) {
 		{Pkg: "src/parser", Func: "VerifC07ParseFlags3", Bound: "whole frontend on every source of 3 bytes: faulty flag against delivered errors", Opts: gose.Options{Deadline: 30 * time.Minute}},
 		{Pkg: "src/parser", Func: "VerifC07ExprRanges", Bound: "46 expression forms (every operator syntax) as ill-typed initial value and as ill-typed assigned value: ranges of all diagnostics"},
 		{Pkg: "src/parser", Func: "VerifC07CallSiteFlags", Bound: "the call-site programs of C09 (populations of up to 2 of 11 alias declarations incl. a generic one whose instantiation fails, x 8 argument forms per position): faulty flag against delivered errors"},
-		{Pkg: "src/parser", Func: "VerifC07ImportDiagnostics", Bound: "two modules in memory: every subset of 4 library and 3 local declarations x 5 import forms x both orders; all diagnostics of the main module"},
+		{Pkg: "src/parser", Func: "VerifC07ImportDiagnostics", Bound: "two modules in memory: every subset of 6 library and 3 local declarations x 5 import forms x both orders, with and without a call that passes over a generic candidate of the library; all diagnostics of the main module"},
 	}
 	if r.Tier == "thorough" {
 		hs = append(hs,
